@@ -23,13 +23,13 @@ FORMS_B = [
 FORMS_C = [('', [['c']]), (';c>cc', [['c', 'd']])]
 
 
-def mk_scenario(forms, npub, max_polls, max_none, drops=0, restart=False, sym_state=False, planted=None):
+def mk_scenario(forms, npub, max_polls, max_none, drops=0, restart=False, sym_state=False, planted=None, timeout_ms=None):
     forms = [[('', suf, tl) for suf, tl in fl] for fl in forms]
     def check(ctx, data, st):
         if planted == 'oracle': ctx.e.fail('planted', 'twin oracle', {'kind': 'planted'})
         check_one_id_and_complete(ctx, data, st)
     def scenario(e):
-        recv_stream(e, forms, npub, max_polls, max_none, check, drops=drops, restart=restart, sym_state=sym_state)
+        recv_stream(e, forms, npub, max_polls, max_none, check, drops=drops, restart=restart, sym_state=sym_state, timeout_ms=timeout_ms)
     return scenario
 
 
@@ -47,7 +47,13 @@ def harnesses(tier):
                           bounds={'sources': 2, 'forms': '2 x 4', 'publishes_per_source': 2, 'poll_decisions': 12, 'not_yet_answers': 1,
                                   'ids': 'unbounded Int, strictly increasing per source'},
                           functions=fn, stubs=stubs, assumptions=assume, budget_s=420))
+        hs.append(Harness('c01.recv_stream.timeouts', mk_scenario([FORMS_A[:1], FORMS_B[:2]], 2, 12, 2, timeout_ms=100),
+                          bounds={'sources': 2, 'forms': '1 x 2', 'publishes_per_source': 2, 'poll_decisions': 12, 'recv timeout': '100 ms (recv() returns None and is called again, as Filter.loop_once does)',
+                                  'not_yet_answers': 2}, functions=fn, stubs=stubs, assumptions=assume, budget_s=420))
     else:
+        hs.append(Harness('c01.recv_stream.timeouts', mk_scenario([FORMS_A, FORMS_B[:4]], 2, 14, 3, timeout_ms=100, sym_state=True),
+                          bounds={'sources': 2, 'forms': '4 x 4', 'publishes_per_source': 2, 'poll_decisions': 14, 'recv timeout': '100 ms', 'not_yet_answers': 3},
+                          functions=fn, stubs=stubs, assumptions=assume, budget_s=1500))
         hs.append(Harness('c01.recv_stream.2src', mk_scenario([FORMS_A, FORMS_B], 2, 14, 1),
                           twin=mk_scenario([FORMS_A[:1], FORMS_B[:1]], 2, 12, 1, planted='oracle'),
                           bounds={'sources': 2, 'forms': '4 x 7', 'publishes_per_source': 2, 'poll_decisions': 14, 'not_yet_answers': 1,
@@ -61,6 +67,17 @@ def harnesses(tier):
         hs.append(Harness('c01.recv_stream.3src', mk_scenario([FORMS_A[:2], FORMS_B[:2], FORMS_C], 2, 14, 0),
                           bounds={'sources': 3, 'forms': '2 x 2 x 2', 'publishes_per_source': 2, 'poll_decisions': 14},
                           functions=fn, stubs=stubs, assumptions=assume, budget_s=1500))
+    from props import s_level as SL
+    if tier == 'quick':
+        hs.append(SL.H('c01.S.tee_rejoin', SL.c01_rejoin(3, {'pB': (0, 400)}, {'pC': 100}), twin=SL.c01_rejoin(2, {}, {'pB': 0, 'pC': 0}, planted=True),
+                       bounds={'topology': 'tee-rejoin, 2 branches, branch C skips a symbolic subset of ids', 'frames': 3, 'free timing (ms)': {'pB': [0, 400]}, 'fixed': {'pC': 100, 'd': 10}}))
+    else:
+        hs.append(SL.H('c01.S.tee_rejoin', SL.c01_rejoin(3, {'pB': (0, 400), 'pC': (0, 400)}), twin=SL.c01_rejoin(2, {}, {'pB': 0, 'pC': 0}, planted=True),
+                       bounds={'topology': 'tee-rejoin, 2 branches, branch C skips a symbolic subset of ids', 'frames': 3, 'free timing (ms)': {'pB': [0, 400], 'pC': [0, 400]}}, budget=3000))
+        hs.append(SL.H('c01.S.tee_rejoin3', SL.c01_rejoin(3, {'pB': (0, 400)}, {'pC': 100, 'pE': 250}, branches=3),
+                       bounds={'topology': 'tee-rejoin, 3 branches', 'frames': 3, 'free timing (ms)': {'pB': [0, 400]}, 'fixed': {'pC': 100, 'pE': 250}}, budget=3000))
+        hs.append(SL.H('c01.S.tee_rejoin.delay', SL.c01_rejoin(3, {'d': (1, 99)}, {'pB': 30, 'pC': 170}),
+                       bounds={'topology': 'tee-rejoin', 'frames': 3, 'free timing (ms)': {'d': [1, 99]}}, budget=3000))
     return hs
 
 
